@@ -6,9 +6,10 @@
    Full:     C20_jacobian, C20_kl_chain, C20_stochastic_chain (each with the GBS score identity at
              the point as an explicit hypothesis), C20_score_identity_product (that hypothesis holds
              for product states), C20_dynamics_passive, C20_dynamics_modes, C20_dynamics_group,
-             C20_vibronic_gain_is_inverse, C20_orbit_click_ok, C20_sample_length.
-   Refuted:  C20_vibronic_gain_refuted, C20_event_orbit_refuted, C20_sample_length_refuted
-             (the faithful model falsifies the property; recorded in known_findings.d/C20.json).
+             C20_vibronic_gain_is_inverse, C20_orbit_click_ok, C20_sample_length (both about the repaired code).
+   Refuted:  C20_vibronic_gain_refuted (open finding vibronic:squeeze-sign, known_findings.d/C20.json);
+             C20_event_orbit_old_refuted, C20_sample_length_old_refuted (about the *_old definitions only: the
+             code before the fix: commits e02f624, a38ca99).
    Partial (statement only, not proved here): C20_score_identity_statement — the score identity for
              an arbitrary symmetric A needs the hafnian expansion of the GBS partition function. *)
 From Coq Require Import Reals List.
@@ -99,26 +100,30 @@ Theorem C20_vibronic_gain_only_trivial : forall s : R, 0 < s -> sgate_x_gain (vi
 Proof. exact vib_gain_only_trivial. Qed.
 Print Assumptions C20_vibronic_gain_only_trivial.
 
-(* similarity.py: the pattern handed to fock_prob has one entry per mode exactly when the orbit has at most
-   `modes` parts; otherwise prob_orbit_exact / prob_event_exact raise (finding similarity:event-orbit-longer-than-modes) *)
-Theorem C20_orbit_click_ok : forall (orbit : list nat) (modes : nat), orbit_ok orbit modes = true <-> (length orbit <= modes)%nat.
-Proof. exact orbit_ok_iff. Qed.
+(* similarity.py (after e02f624): prob_orbit_exact never raises from a pattern of the wrong length: it returns 0.0 early
+   exactly for orbits with more parts than modes, otherwise the padded pattern has one entry per mode *)
+Theorem C20_orbit_click_ok : forall (orbit : list nat) (modes : nat),
+  orbit_accepts orbit modes = true
+  /\ (orbit_early_zero orbit modes = true <-> (modes < length orbit)%nat)
+  /\ (orbit_early_zero orbit modes = false -> length (orbit_click orbit modes) = modes).
+Proof. exact orbit_accepts_all. Qed.
 Print Assumptions C20_orbit_click_ok.
 
-Theorem C20_event_orbit_refuted : exists (orbit : list nat) (modes : nat), fold_right Nat.add O orbit = 4%nat /\ orbit_ok orbit modes = false.
-Proof. exact orbit_refuted. Qed.
-Print Assumptions C20_event_orbit_refuted.
+(* the code before e02f624 raised for such orbits (fixed defect similarity:event-orbit-longer-than-modes) *)
+Theorem C20_event_orbit_old_refuted : exists (orbit : list nat) (modes : nat),
+  fold_right Nat.add O orbit = 4%nat /\ orbit_accepts_old orbit modes = false.
+Proof. exact orbit_old_refuted. Qed.
+Print Assumptions C20_event_orbit_old_refuted.
 
-(* vibronic.sample: samples have 2N entries exactly when the two-mode squeezing parameters are all zero or all
-   non-zero (finding vibronic:sample-length-mixed-t) *)
-Theorem C20_sample_length : forall z : list bool, z <> [] ->
-  (sample_len z = 2 * length z)%nat <-> (forallb (fun b => b) z = true \/ forallb negb z = true).
-Proof. exact sample_len_iff. Qed.
+(* vibronic.sample (after a38ca99): every sample has 2N entries, for every pattern of zero / non-zero two-mode squeezing *)
+Theorem C20_sample_length : forall z : list bool, sample_len z = (2 * length z)%nat.
+Proof. exact sample_len_2n. Qed.
 Print Assumptions C20_sample_length.
 
-Theorem C20_sample_length_refuted : exists z : list bool, sample_len z <> (2 * length z)%nat.
-Proof. exact sample_len_refuted. Qed.
-Print Assumptions C20_sample_length_refuted.
+(* the code before a38ca99 returned 3N entries for mixed zero / non-zero t (fixed defect vibronic:sample-length-mixed-t) *)
+Theorem C20_sample_length_old_refuted : exists z : list bool, sample_len_old z <> (2 * length z)%nat.
+Proof. exact sample_len_old_refuted. Qed.
+Print Assumptions C20_sample_length_old_refuted.
 
 (* the hypotheses are inhabited *)
 Example C20_ex_product_hyp : forall k, (k < length [[1; 0]; [0; 1]])%nat ->
